@@ -82,6 +82,12 @@ SIG = {
                       [('hashlib_sha256', 'Bytes → Bytes'), ('OPS', 'List (String × Bytes)'), ('self_version', 'Bytes'),
                        ('self_inputs', 'List Py.PyTxIn'), ('self_outputs', 'List Py.PyTxOut'), ('self_locktime', 'Bytes'),
                        ('txin_index', 'Int'), ('script', 'List Py.PyTok'), ('amount', 'Int'), ('sighash', 'Int')], 'Bytes'),
+    # sizes and ids
+    'transaction_get_size': ('transactions.py', 'Transaction.get_size', [('OPS', 'List (String × Bytes)'), ('self_version', 'Bytes'), ('self_inputs', 'List Py.PyTxIn'), ('self_outputs', 'List Py.PyTxOut'), ('self_witnesses', 'List Py.PyWit'), ('self_locktime', 'Bytes'), ('self_has_segwit', 'Bool')], 'Int'),
+    'transaction_get_vsize': ('transactions.py', 'Transaction.get_vsize', [('OPS', 'List (String × Bytes)'), ('self_version', 'Bytes'), ('self_inputs', 'List Py.PyTxIn'), ('self_outputs', 'List Py.PyTxOut'), ('self_witnesses', 'List Py.PyWit'), ('self_locktime', 'Bytes'), ('self_has_segwit', 'Bool')], 'Int'),
+    'transaction_get_txid': ('transactions.py', 'Transaction.get_txid', [('hashlib_sha256', 'Bytes → Bytes')] + [('OPS', 'List (String × Bytes)'), ('self_version', 'Bytes'), ('self_inputs', 'List Py.PyTxIn'), ('self_outputs', 'List Py.PyTxOut'), ('self_witnesses', 'List Py.PyWit'), ('self_locktime', 'Bytes'), ('self_has_segwit', 'Bool')], 'Bytes'),
+    'transaction_get_hash': ('transactions.py', 'Transaction._get_hash', [('hashlib_sha256', 'Bytes → Bytes')] + [('OPS', 'List (String × Bytes)'), ('self_version', 'Bytes'), ('self_inputs', 'List Py.PyTxIn'), ('self_outputs', 'List Py.PyTxOut'), ('self_witnesses', 'List Py.PyWit'), ('self_locktime', 'Bytes'), ('self_has_segwit', 'Bool')], 'Bytes'),
+    'transaction_get_wtxid': ('transactions.py', 'Transaction.get_wtxid', [('hashlib_sha256', 'Bytes → Bytes')] + [('OPS', 'List (String × Bytes)'), ('self_version', 'Bytes'), ('self_inputs', 'List Py.PyTxIn'), ('self_outputs', 'List Py.PyTxOut'), ('self_witnesses', 'List Py.PyWit'), ('self_locktime', 'Bytes'), ('self_has_segwit', 'Bool')], 'Bytes'),
     # parsing: cursor arithmetic over the whole buffer (hex strings that denote data are modelled as the bytes they denote)
     'txoutput_from_raw': ('transactions.py', 'TxOutput.from_raw',
                           [('CODEOPS', 'List (Bytes × String)'), ('txoutputrawhex', 'Bytes'), ('cursor', 'Int'), ('has_segwit', 'Bool')],
@@ -140,6 +146,8 @@ TOK_FIELDS = {'script_pubkey', 'script_sig'}
 RECORDS = {'List Py.PyTxIn': ('txinput_to_bytes', True, ['txid', 'txout_index', 'script_sig', 'sequence']),
            'List Py.PyTxOut': ('txoutput_to_bytes', True, ['amount', 'script_pubkey']),
            'List Py.PyWit': ('txwitness_to_bytes', False, ['stack'])}
+# methods of Transaction called on self from another method of Transaction: the callee gets the caller's parameters of the same names
+SELF_CALLS = {'get_size': 'transaction_get_size', '_get_hash': 'transaction_get_hash'}
 # parsers: `x.hex()` of bytes is the same data (hex strings are modelled as the bytes they denote), struct.unpack_from
 PARSERS = {'txoutput_from_raw', 'txinput_from_raw', 'transaction_from_raw'}
 # struct format characters: size in bytes (little-endian / no alignment only), unsigned
@@ -310,7 +318,7 @@ class Tr:
     def __init__(s, name, file=None):
         s.name = name; s.tmp = 0; s.pre = []; s.declared = set(); s.points = set(); s.tuple5 = set()
         s.toklists = set(); s.tokvars = set(); s.optables = set(); s.byteslists = set(); s.reclists = {}; s.recvars = {}; s.revtables = set()
-        s.hoisted = set(); s.selfcopies = set(); s.scriptlists = set(); s.fmtvars = {}; s.fmtpre = {}; s.hoisting = False
+        s.hoisted = set(); s.selfcopies = set(); s.scriptlists = set(); s.fmtvars = {}; s.fmtpre = {}; s.hoisting = False; s.ratvars = set()
         s.fconsts = FILE_CONSTS.get(file, {})
 
     def fail(s, n, why):
@@ -495,6 +503,18 @@ class Tr:
             if n.id in s.bytesvars: s.fail(n, 'iteration over bytes')
             return n.id
         s.fail(n, 'iterable')
+
+    def rational(s, n):
+        """`a + b / k` or `b / k` with int operands and a positive power-of-two literal k -> (numerator, denominator) as Lean terms"""
+        def isdiv(x):
+            return (isinstance(x, ast.BinOp) and isinstance(x.op, ast.Div) and isinstance(x.right, ast.Constant)
+                    and isinstance(x.right.value, int) and not isinstance(x.right.value, bool) and x.right.value > 0
+                    and x.right.value & (x.right.value - 1) == 0)
+        if isdiv(n): return (s.e(n.left), f'({n.right.value} : Int)')
+        if isinstance(n, ast.BinOp) and isinstance(n.op, ast.Add) and isdiv(n.right) and not s.isbytes(n.left):
+            k = n.right.right.value
+            return (f'({s.e(n.left)} * ({k} : Int) + {s.e(n.right.left)})', f'({k} : Int)')
+        return None
 
     def fmt_items(s, n, fmt):
         """'<32sI' -> [('s', 32), ('I', 4)]; the format must be little-endian, or consist of `s` items only (no alignment either way)"""
@@ -780,6 +800,18 @@ class Tr:
                     and isinstance(args[0], ast.Name) and args[0].id in s.tokvars):
                 d = s.eff(f'Py.tokData {args[0].id}')        # h_to_b(token): raises for a string that is not hex
                 return s.eff(f'op_push_data {d}')
+            if (isinstance(f.value, ast.Name) and f.value.id == 'self' and f.attr == 'to_bytes' and len(args) == 1 and not kw
+                    and all(x in s.params for x in ('OPS', 'self_version', 'self_inputs', 'self_outputs', 'self_witnesses', 'self_locktime'))):
+                return s.eff(f'transaction_to_bytes OPS self_version self_inputs self_outputs self_witnesses self_locktime {s.cond(args[0])}')
+            if isinstance(f.value, ast.Name) and f.value.id == 'self' and f.attr in SELF_CALLS and not args and not kw:
+                callee = SELF_CALLS[f.attr]
+                need = [p_ for p_, _ in SIG[callee][2]]
+                if not all(p_ in s.params for p_ in need): s.fail(n, f'self.{f.attr}(): missing parameters')
+                return s.eff(f'{callee} ' + ' '.join(need))
+            if (isinstance(f.value, ast.Name) and f.value.id == 'math' and f.attr == 'ceil' and len(args) == 1
+                    and isinstance(args[0], ast.Name) and args[0].id in s.ratvars):
+                nm = args[0].id
+                return f'(Py.ceilDiv {nm}_num {nm}_den)'
             if isinstance(f.value, ast.Name) and f.value.id == 'self' and f.attr in CALLS:
                 return s.eff(f'{CALLS[f.attr]} ' + ' '.join(s.e(a) for a in args))
             if f.attr == 'to_bytes':
@@ -930,6 +962,13 @@ class Tr:
                 v = s.e(st.value)
                 return s.flush(ind) + [f'{ind}({", ".join(x.id for x in tg.elts)}) := {v}']
             if not isinstance(tg, ast.Name): s.fail(st, 'assignment target')
+            rq = s.rational(st.value)
+            if rq is not None:
+                # true division: the exact quotient num/den (den a positive literal), kept as a pair; Python computes it in binary64,
+                # which is exact for |values| < 2^51 when den is a power of two (C16's recorded assumption)
+                if tg.id in s.declared or tg.id in s.ratvars: s.fail(st, 'rational variable re-bound')
+                s.ratvars.add(tg.id); s.declared.add(tg.id + '_num'); s.declared.add(tg.id + '_den')
+                return s.flush(ind) + [f'{ind}let {tg.id}_num : Int := {rq[0]}', f'{ind}let {tg.id}_den : Int := {rq[1]}']
             if s.name in PARSERS and s.fmt_of(st.value) is not None and not isinstance(st.value, ast.Name):
                 # a struct format bound to a name: used only as a format (checked: every other use of the name is rejected by e())
                 if tg.id in s.fmtvars or tg.id in s.declared: s.fail(st, 'format variable re-bound')
